@@ -64,19 +64,32 @@ def dispatchState (tgt : Option FullTarget) (op : String) (args : List Sexp) : O
   | "target.tcpclose", some t => (some (Tgt.tcpClosed t), "ok")
   | _, _ => (tgt, dispatch op args)
 
-partial def loop (hin hout : IO.FS.Stream) (tgt : Option FullTarget) : IO Unit := do
+/-- process state: the interactive reference target and the Lean-side LogixDriver session -/
+structure PState where
+  tgt : Option FullTarget := none
+  ld : Option LdSession := none
+
+def dispatchAll (st : PState) (op : String) (args : List Sexp) : PState × String :=
+  if op.startsWith "ld." then
+    let (ld', out) := dispatchLd st.ld op args
+    ({ st with ld := ld' }, out)
+  else
+    let (tgt', out) := dispatchState st.tgt op args
+    ({ st with tgt := tgt' }, out)
+
+partial def loop (hin hout : IO.FS.Stream) (st : PState) : IO Unit := do
   let line ← hin.getLine
   if line.isEmpty then return ()
-  let (tgt', out) :=
+  let (st', out) :=
     match Sexp.parseLine line with
-    | some (Sexp.atom op :: args) => dispatchState tgt op args
-    | _ => (tgt, "bad-line")
+    | some (Sexp.atom op :: args) => dispatchAll st op args
+    | _ => (st, "bad-line")
   hout.putStrLn out
   hout.flush
-  loop hin hout tgt'
+  loop hin hout st'
 
 def main : IO Unit := do
   let hin ← IO.getStdin
   let hout ← IO.getStdout
-  loop hin hout none
+  loop hin hout {}
   hout.flush
